@@ -90,6 +90,12 @@ structure FloatOps (α : Type) where
   pow10 : Int → α
   /-- C `==` on doubles (msameval on mapping keys) -/
   eq : α → α → Bool
+  /-- `isnan(x)` -/
+  isNan : α → Bool
+  /-- `isinf(x)` -/
+  isInf : α → Bool
+  /-- `x < 0` -/
+  ltZero : α → Bool
 
 /-- `mblen(cp, MB_CUR_MAX)` on a non-empty rest: `none` = -1 (invalid sequence).  The two fields are the stated
     assumptions about libc: a character is at least one byte long and never extends beyond the terminating NUL
@@ -122,9 +128,17 @@ def magnitude (n : Int) : Nat := n.natAbs % 2 ^ 64
 def saveInt (n : Int) : List Byte :=
   if n < 0 then 45 :: digits (magnitude n) else digits (magnitude n)
 
-/-- escapes of save_svalue: `"` and `\` get a backslash, LF is written as CR, everything else verbatim -/
+/-- bytes `save_svalue` writes with a backslash in front — REGENERATED from the condition in the source -/
+def saveEscaped : List Byte := NV.Gen.C16.saveEscaped
+/-- bytes `svalue_save_size` counts twice — REGENERATED from the condition in the source -/
+def sizeEscaped : List Byte := NV.Gen.C16.sizeEscaped
+/-- the byte written in place of LF (`(c == '\n') ? '\r' : c`) — REGENERATED -/
+def swapFrom : Byte := NV.Gen.C16.swapFrom
+def swapTo : Byte := NV.Gen.C16.swapTo
+
+/-- escapes of save_svalue: `"`, `\` and CR get a backslash, LF is written as CR, everything else verbatim -/
 def escByte (c : Byte) : List Byte :=
-  if c = 34 ∨ c = 92 then [92, c] else if c = 10 then [13] else [c]
+  if saveEscaped.contains c then [92, c] else if c = swapFrom then [swapTo] else [c]
 
 def escStr : List Byte → List Byte
   | [] => []
@@ -133,12 +147,17 @@ def escStr : List Byte → List Byte
 /-- the size loop of svalue_save_size for strings -/
 def strSize : List Byte → Nat
   | [] => 0
-  | c :: r => (if c = 92 ∨ c = 34 then 2 else 1) + strSize r
+  | c :: r => (if sizeEscaped.contains c then 2 else 1) + strSize r
 
-/-- `save_real_text`: "%g", plus ".0" when that text consists of `-` and digits only -/
+/-- `save_real_text`: NaN is written "0e+999", the infinities "1e+999" / "-1e+999" (number syntax that
+    parse_numeric evaluates to NaN / infinity); otherwise "%g", plus ".0" when that text consists of `-` and
+    digits only -/
 def saveReal {α} (F : FloatOps α) (x : α) : List Byte :=
-  let t := F.print x
-  if t.all (fun c => c = 45 || isDigit c) then t ++ [46, 48] else t
+  if F.isNan x then [48, 101, 43, 57, 57, 57]
+  else if F.isInf x then (if F.ltZero x then [45, 49, 101, 43, 57, 57, 57] else [49, 101, 43, 57, 57, 57])
+  else
+    let t := F.print x
+    if t.all (fun c => c = 45 || isDigit c) then t ++ [46, 48] else t
 
 variable {α : Type}
 
@@ -240,13 +259,16 @@ def skipStr : List Byte → Option (List Byte)
       | _ :: r' => skipStr r'
     else skipStr r
 
+/-- `mb_span = mblen(cp, MB_CUR_MAX); if (mb_span < 0) mb_span = 1;` on a non-empty rest: the bytes `restore_size`
+    steps over — an invalid sequence counts as one byte -/
+def mbStep (mb : MbLen) (s : List Byte) : Nat := (mb.len s).getD 1
+
 /-- result of the string scan of restore_size -/
 inductive MbScan where
-  | bad                          -- mblen < 0: return -1
   | open_                        -- ran into the NUL: `return 0`, i.e. the caller sees SIZE 0 (sic)
   | closed (rest : List Byte)
 
-/-- the same scan in `restore_size`, which first asks `mblen` at every position it lands on
+/-- the string scan of `restore_size`, which steps over whole multibyte characters
     (fuel = length of the text + 1) -/
 def skipStrMb (mb : MbLen) : Nat → List Byte → MbScan
   | 0, _ => .open_
@@ -254,15 +276,12 @@ def skipStrMb (mb : MbLen) : Nat → List Byte → MbScan
   | fuel + 1, c :: r =>
     if c = 34 then .closed r
     else
-      match mb.len (c :: r) with
-      | none => .bad
-      | some n =>
-        let r' := (c :: r).drop n
-        if c = 92 then
-          match r' with
-          | [] => .open_
-          | _ :: r'' => skipStrMb mb fuel r''
-        else skipStrMb mb fuel r'
+      let r' := (c :: r).drop (mbStep mb (c :: r))
+      if c = 92 then
+        match r' with
+        | [] => .open_
+        | _ :: r'' => skipStrMb mb fuel r''
+      else skipStrMb mb fuel r'
 
 /-- restore_interior_string / restore_hash_string / restore_string: decoded contents and the rest after the
     closing quote.  An escaped byte is taken verbatim, an unescaped CR becomes LF. -/
@@ -300,10 +319,20 @@ def toInt64 (neg : Bool) (res : Nat) : Int :=
   let u : Nat := if neg then (2 ^ 64 - res % 2 ^ 64) % 2 ^ 64 else res % 2 ^ 64
   if u < 2 ^ 63 then Int.ofNat u else Int.ofNat u - 2 ^ 64
 
-/-- exponent part after `e`: `+digits` or `-digits`; returns the power of ten and the rest at the terminator -/
-def parseExp (F : FloatOps α) : List Byte → Option (α × List Byte)
-  | 43 :: s => let p := s.span isDigit; some (F.pow10 (accExpo 0 p.1), p.2)
-  | 45 :: s => let p := s.span isDigit; some (F.pow10 (-(accExpo 0 p.1 : Int)), p.2)
+/-- `SCALE_STEP_EXPONENT` -/
+def scaleStep : Nat := NV.Gen.C16.scaleStepExponent
+
+/-- `scale_down(f, expo)` = f * 10^-expo, in two steps beyond 10^-300 (pow(10,-expo) alone is subnormal / 0 there) -/
+def scaleDown (F : FloatOps α) (f : α) (expo : Nat) : α :=
+  if expo > scaleStep then
+    F.mul (F.mul f (F.pow10 (-(scaleStep : Int)))) (F.pow10 (-((expo - scaleStep : Nat) : Int)))
+  else F.mul f (F.pow10 (-(expo : Int)))
+
+/-- exponent part after `e`: `+digits` or `-digits`; returns the scaling to apply to the mantissa and the rest at
+    the terminator -/
+def parseExp (F : FloatOps α) : List Byte → Option ((α → α) × List Byte)
+  | 43 :: s => let p := s.span isDigit; some (fun f => F.mul f (F.pow10 (accExpo 0 p.1)), p.2)
+  | 45 :: s => let p := s.span isDigit; some (fun f => scaleDown F f (accExpo 0 p.1), p.2)
   | _ => none
 
 /-- `parse_numeric(&cp, c, dest)`, `s` = text after the first character `c` (`-` or a digit).
@@ -332,14 +361,14 @@ def parseNumeric (F : FloatOps α) (c : Byte) (s : List Byte) : Option (Value α
           match q.2 with
           | 101 :: s2 =>
             match parseExp F s2 with
-            | some (pw, rem) => some (.real (sgn (F.mul f1 pw)), rem)
+            | some (sc, rem) => some (.real (sgn (sc f1)), rem)
             | none => none
           | rem => some (.real (sgn f1), rem)
         else none
       | [] => none
     | 101 :: s2 =>
       match parseExp F s2 with
-      | some (pw, rem) => some (.real (sgn (F.mul (F.ofNat res) pw)), rem)
+      | some (sc, rem) => some (.real (sgn (sc (F.ofNat res))), rem)
       | none => none
     | rem => some (.int (toInt64 neg res), rem)
 
@@ -366,16 +395,12 @@ def pre (mb : MbLen) : Nat → Bool → Bool → Bool → List Byte → Nat → 
   | fuel + 1, top, isMap, idx, c :: r, size, zs =>
     let delim : Byte := if isMap && !idx then 58 else 44
     let idx' := if isMap then !idx else idx
-    -- restore_size: mb_span = mblen(cp); < 0 -> -1; cp += mb_span
-    let landed : Option (List Byte) :=
-      if top then (mb.len (c :: r)).map (fun n => (c :: r).drop n) else some r
-    match landed with
-    | none => none
-    | some r =>
+    -- restore_size: mb_span = mblen(cp) (1 for an invalid sequence); cp += mb_span
+    let r := if top then (c :: r).drop (mbStep mb (c :: r)) else r
+    (
       if c = 34 then
         if top then
           match skipStrMb mb (r.length + 1) r with
-          | .bad => none
           | .open_ => some ([], 0, [])       -- restore_size: `return 0` = "no elements" (sic)
           | .closed (d :: r') => if d = delim then pre mb fuel top isMap idx' r' (size + 1) zs else none
           | .closed [] => none
@@ -406,7 +431,7 @@ def pre (mb : MbLen) : Nat → Bool → Bool → Bool → List Byte → Nat → 
       else
         match afterDelim delim r with
         | some r' => pre mb fuel top isMap idx' r' (size + 1) zs
-        | none => none
+        | none => none)
 
 /-! ### value pass -/
 
